@@ -205,6 +205,14 @@ class C19:
                 line = []  # an empty line
             elif wide_ok and rng.random() < 0.4:
                 line = gen_line(rng, tok, int(W * 2.5))
+                if rng.random() < 0.4:
+                    # one unbroken word wider than the console (rich folds it), made of
+                    # double-width or ASCII characters, with short words after it
+                    n = W // 2 + rng.randint(1, 8) if rng.random() < 0.6 else W + rng.randint(1, 8)
+                    alphabet = "面对模棱两可的想法漢字" if n <= W // 2 + 8 else "abcdefghij"
+                    line = line[:2] + [[" " + "".join(rng.choice(alphabet) for _ in range(n)), gen_style(rng) if rng.random() < 0.5 else ""]]
+                    for _ in range(rng.randint(1, 3)):
+                        line.append([" " + rng.choice(["ab", "cd", "x", "漢字", "ef gh"]), gen_style(rng) if rng.random() < 0.4 else ""])
                 while term.text_width("".join(t for t, _ in line)) <= W:
                     line.append([" " + rng.choice(WORDS) + " " + rng.choice(WORDS), gen_style(rng) if rng.random() < 0.5 else ""])
                 wide[tok] = line
@@ -489,7 +497,14 @@ class Proxy:
                 tx = Text()
                 for t, st in pieces:
                     tx.append(t, style=st or None)
-                out.extend(self.pristine.rows(lambda c: c.print(tx)))
+                rows = self.pristine.rows(lambda c: c.print(tx))
+                # ... but only as far as the layout goes: "complete" is checked independently:
+                # wrapping may move and drop blanks, never another character
+                want = "".join(ch for t, _ in pieces for ch in t if not ch.isspace())
+                have = "".join(c[0] for r in rows for c in r if c[0] and not c[0].isspace())
+                if want != have:
+                    self._v("complete", "line-incomplete", "a redirected line wider than the console lost characters in wrapping: wrote %r, laid out as %r" % (want[:120], have[:120]))
+                out.extend(rows)
             else:
                 for r in range(r0, scr.row):
                     out.append(scr.cells(r))
